@@ -76,6 +76,8 @@ type taintState struct {
 	nSrc        int
 	isHeaderVar map[*types.Var]bool
 	stores      map[*types.Var][]*ssa.Store // tainted stores into struct fields
+	dyn         map[ssa.CallInstruction][]*ssa.Function
+	dynDone     map[*ssa.Function]bool
 }
 
 func readerMethodBits(recvType, name string, call *ssa.CallCommon) int {
@@ -250,8 +252,31 @@ func (ts *taintState) transfer(f *ssa.Function) {
 							}
 						}
 					}
-				} else if com.IsInvoke() {
-					// interface call: propagate to every repo implementation through the call graph lazily (approximated: none)
+				} else if cal == nil {
+					// interface call or call of a function value (the sample group entry decoders are looked up in a
+					// registry map): the arguments' taint reaches the parameters of every callee the call graph has
+					// for this site
+					for _, callee := range ts.dynCallees(f, x) {
+						if !ts.inSet[callee] {
+							continue
+						}
+						off := 0
+						if com.IsInvoke() {
+							off = 1 // receiver
+						}
+						for i, a := range com.Args {
+							if i+off < len(callee.Params) {
+								if t := ts.get(a); t != nil {
+									p := callee.Params[i+off]
+									n := joinTaint(ts.param[p], t)
+									if !sameTaint(ts.param[p], n) {
+										ts.param[p] = n
+										ts.changed = true
+									}
+								}
+							}
+						}
+					}
 				} else if cal != nil && !inRepo(cal) && isIntType(x.Type()) {
 					// len/min/max-like helpers outside the repo: int(x) conversions only; ignore
 				}
@@ -607,11 +632,78 @@ func (ts *taintState) guardedBy(b *ssa.BasicBlock, t *taintV) (bool, string) {
 				continue
 			}
 		}
-		if ts.condShares(ifi.Cond, t, 0) {
+		// the truth value of the condition on the way to b
+		truth, known := true, false
+		switch {
+		case d.Succs[0].Dominates(b) && len(d.Succs[0].Preds) == 1:
+			truth, known = true, true
+		case d.Succs[1].Dominates(b) && len(d.Succs[1].Preds) == 1:
+			truth, known = false, true
+		case blockLeaves(d.Succs[0]) && !blockLeaves(d.Succs[1]):
+			truth, known = false, true
+		case blockLeaves(d.Succs[1]) && !blockLeaves(d.Succs[0]):
+			truth, known = true, true
+		}
+		if ts.condBounds(ifi.Cond, t, 0, truth, known) {
 			return true, ts.c.Pos(ifi.Cond.Pos())
 		}
 	}
 	return false, ""
+}
+
+// condBounds: like condShares, but an ordering comparison between a value sharing a taint root with t and a value
+// that does not must bound the tainted side from ABOVE on the way taken (x < y, x <= y, x == y with x tainted):
+// `if n <= 0 { return }` shares the root and bounds nothing.
+func (ts *taintState) condBounds(v ssa.Value, t *taintV, depth int, truth, known bool) bool {
+	if !known {
+		return ts.condShares(v, t, depth)
+	}
+	switch x := v.(type) {
+	case *ssa.BinOp:
+		switch x.Op {
+		case token.EQL, token.NEQ, token.LSS, token.LEQ, token.GTR, token.GEQ:
+		default:
+			return false
+		}
+		shares := func(o ssa.Value) bool {
+			ot := ts.get(o)
+			if ot == nil {
+				return false
+			}
+			if t.hdr && ot.hdr {
+				return true
+			}
+			for r := range ot.roots {
+				if t.roots[r] {
+					return true
+				}
+			}
+			return false
+		}
+		sx, sy := shares(x.X), shares(x.Y)
+		if !sx && !sy {
+			return false
+		}
+		if !ts.condShares(v, t, depth) {
+			return false
+		}
+		if sx && sy {
+			return true
+		}
+		op := x.Op
+		if !truth {
+			op = map[token.Token]token.Token{token.EQL: token.NEQ, token.NEQ: token.EQL, token.LSS: token.GEQ, token.GEQ: token.LSS, token.GTR: token.LEQ, token.LEQ: token.GTR}[op]
+		}
+		if sy { // mirror: tainted side on the left
+			op = map[token.Token]token.Token{token.EQL: token.EQL, token.NEQ: token.NEQ, token.LSS: token.GTR, token.GTR: token.LSS, token.LEQ: token.GEQ, token.GEQ: token.LEQ}[op]
+		}
+		return op == token.LSS || op == token.LEQ || op == token.EQL
+	case *ssa.UnOp:
+		if x.Op == token.NOT {
+			return ts.condBounds(x.X, t, depth+1, !truth, known)
+		}
+	}
+	return ts.condShares(v, t, depth)
 }
 
 func blockLeaves(b *ssa.BasicBlock) bool {
@@ -1721,4 +1813,23 @@ func (ts *taintState) guardedAtCallers(f *ssa.Function, t *taintV) int {
 		n++
 	}
 	return n
+}
+
+// dynCallees: the callees the (VTA) call graph records for a call site that has no static callee.
+func (ts *taintState) dynCallees(f *ssa.Function, site ssa.CallInstruction) []*ssa.Function {
+	if ts.dyn == nil {
+		ts.dyn = map[ssa.CallInstruction][]*ssa.Function{}
+		ts.dynDone = map[*ssa.Function]bool{}
+	}
+	if !ts.dynDone[f] {
+		ts.dynDone[f] = true
+		if node := ts.c.CallGraph().Nodes[f]; node != nil {
+			for _, e := range node.Out {
+				if e.Site != nil && e.Site.Common().StaticCallee() == nil && e.Callee != nil && e.Callee.Func != nil {
+					ts.dyn[e.Site] = append(ts.dyn[e.Site], e.Callee.Func)
+				}
+			}
+		}
+	}
+	return ts.dyn[site]
 }
